@@ -517,7 +517,176 @@ Qed.
 
 Lemma load_inv c d : DiskInv c d -> Inv c (load c d).
 Proof.
-  intros K. unfold load. destruct K as [A B G] eqn:EK. apply load_fold_inv; auto.
-  - apply empty_inv; auto.
-  - cbn. tauto.
+  intros K. unfold load. pose proof K as [A B G]. apply load_fold_inv; auto.
+  all: try solve [apply empty_inv; auto]; try solve [cbn; tauto].
 Qed.
+
+(** * Handlers *)
+
+Lemma discover_inv c now mac s : Inv c s -> Inv c (fst (discover c now mac s)).
+Proof.
+  intros I. unfold discover.
+  destruct (find_lease mac (leases s)) as [[i l]|] eqn:Ef; cbn; [apply store_inv; auto|].
+  pose proof (reserve_inv c now mac s I (find_index_none_mac _ _ Ef)) as R.
+  destruct (reserve c now mac s) as [s' r]; cbn in *.
+  destruct r; cbn; apply store_inv; auto.
+Qed.
+
+Lemma request_inv c now mac sid reqip ci host s :
+  Inv c s -> Inv c (fst (request c now mac sid reqip ci host s)).
+Proof.
+  intros I. unfold request.
+  destruct (request_lease c mac sid reqip ci s) as [r|[i l]]; cbn; auto.
+  destruct (l_static l); cbn; apply store_inv; auto using commit_inv.
+Qed.
+
+Lemma decline_inv c now mac reqip ci s : Inv c s -> Inv c (fst (decline c now mac reqip ci s)).
+Proof.
+  intros I. unfold decline.
+  destruct (find_index _ (leases s)) as [[oi old]|] eqn:Ef; cbn; [|apply store_inv; auto].
+  apply find_index_some in Ef as [_ Ep]. apply andb_true_iff in Ep as [Em _]. apply N.eqb_eq in Em.
+  pose proof (rm_dynamic_lease_inv c (l_mac old) (l_ip old) (l_host old) s I) as I1.
+  pose proof (rm_dynamic_lease_clears c (l_mac old) (l_ip old) (l_host old) s) as C1.
+  destruct (rm_dynamic_lease c (l_mac old) (l_ip old) (l_host old) s) as [s1 e]; cbn in *.
+  destruct e; cbn; [apply store_inv; auto|].
+  destruct (C1 eq_refl) as [Cm _]. rewrite Em in Cm.
+  pose proof (reserve_inv c now mac s1 I1 Cm) as R.
+  destruct (reserve c now mac s1) as [s2 r]; cbn in *.
+  destruct r; cbn; apply store_inv; auto using commit_inv.
+Qed.
+
+Lemma release_inv c mac reqip ci s : Inv c s -> Inv c (fst (release c mac reqip ci s)).
+Proof.
+  intros I. unfold release.
+  destruct (find_index _ (leases s)) as [[oi old]|] eqn:Ef; cbn; [|apply store_inv; auto].
+  pose proof (rm_dynamic_lease_inv c (l_mac old) (l_ip old) (l_host old) s I) as I1.
+  destruct (rm_dynamic_lease c (l_mac old) (l_ip old) (l_host old) s) as [s1 e]; cbn in *.
+  destruct e; cbn; apply store_inv; auto.
+Qed.
+
+Lemma static_add_inv c mac ip host s : Inv c s -> Inv c (fst (static_add c mac ip host s)).
+Proof.
+  intros I. unfold static_add.
+  destruct (N.eqb_spec ip (c_gw c)) as [|Hgw]; cbn; auto.
+  destruct (if is_nil host then Some [] else _) as [h|]; cbn; auto.
+  pose proof (rm_dynamic_lease_inv c mac ip h s I) as I1.
+  pose proof (rm_dynamic_lease_clears c mac ip h s) as C1.
+  destruct (rm_dynamic_lease c mac ip h s) as [s1 e]; cbn in *.
+  destruct e; cbn; [apply store_inv; auto|].
+  destruct (C1 eq_refl) as [Cm Ci].
+  destruct (add_lease c _ s1) as [s2|] eqn:Ea; cbn; apply store_inv; auto.
+  eapply add_lease_inv; eauto.
+Qed.
+
+Lemma lease_by_ip_some ip L d : lease_by_ip ip L = Some d -> In d L /\ l_ip d = ip.
+Proof.
+  unfold lease_by_ip. destruct (find_index _ L) as [[i x]|] eqn:E; [|discriminate].
+  intros H; inversion H; subst. apply find_index_some in E as [E1 E2].
+  split; [eapply nth_error_In; eauto|apply N.eqb_eq; auto].
+Qed.
+
+Lemma validate_static_some c mac ip host s h :
+  validate_static c mac ip host s = Some h ->
+  ip <> c_gw c /\ in_subnet c ip = true /\
+  (iidx (ix s) ip = false \/ exists d, In d (leases s) /\ l_ip d = ip /\ l_mac d = mac).
+Proof.
+  unfold validate_static. destruct (normalize host) as [n|]; [|discriminate].
+  destruct (negb (valid_hostname n)); [discriminate|].
+  destruct (match hidx (ix s) n with Some _ => _ | None => false end); [discriminate|].
+  destruct (iidx (ix s) ip) eqn:Ei; cbn [andb].
+  - destruct (lease_by_ip ip (leases s)) as [d|] eqn:El; [|discriminate].
+    destruct (N.eqb_spec (l_mac d) mac) as [Em|]; cbn [negb]; [|discriminate].
+    destruct (N.eqb_spec ip (c_gw c)); [discriminate|].
+    destruct (in_subnet c ip); cbn [negb]; [|discriminate].
+    intros _. apply lease_by_ip_some in El as [? ?]. repeat split; auto. right; eauto.
+  - destruct (N.eqb_spec ip (c_gw c)); [discriminate|].
+    destruct (in_subnet c ip); cbn [negb]; [|discriminate]. auto.
+Qed.
+
+Lemma rm_lease_some c ip mac host s s1 :
+  rm_lease c ip mac host s = Some s1 ->
+  (s1 = s /\ leases s = []) \/ exists l1 l l2, leases s = l1 ++ l :: l2 /\ l_mac l = mac /\ l_ip l = ip /\
+                            s1 = rm_lease_by_index c (length l1) s /\ leases s1 = l1 ++ l2.
+Proof.
+  unfold rm_lease. destruct (leases s) as [|a0 r0] eqn:EL0; cbn [is_nil]; [intros H; inversion H; auto|].
+  rewrite <- EL0 in *. clear EL0 a0 r0.
+  destruct (find_index _ (leases s)) as [[i l]|] eqn:Ef; [|discriminate].
+  destruct ((l_mac l =? mac) && eqb_bytes (l_host l) host) eqn:Ec; [|discriminate].
+  intros H; inversion H; subst. right.
+  apply find_index_some in Ef as [Ei Ep]. apply N.eqb_eq in Ep.
+  apply andb_true_iff in Ec as [Em _]. apply N.eqb_eq in Em.
+  destruct (nth_error_split' _ _ _ Ei) as (l1 & l2 & EL & <-).
+  exists l1, l, l2. repeat split; auto.
+  unfold rm_lease_by_index. rewrite Ei. cbn. rewrite EL. apply remove_nth_split.
+Qed.
+
+Lemma rm_lease_inv c ip mac host s s1 : Inv c s -> rm_lease c ip mac host s = Some s1 -> Inv c s1.
+Proof.
+  intros I H. apply rm_lease_some in H as [[-> _]|(l1 & l & l2 & _ & _ & _ & -> & _)]; auto.
+  apply rm_lease_by_index_inv; auto.
+Qed.
+
+Lemma static_update_inv c mac ip host s : Inv c s -> Inv c (fst (static_update c mac ip host s)).
+Proof.
+  intros I. unfold static_update.
+  destruct (find_lease mac (leases s)) as [[fi found]|] eqn:Ef; cbn; auto.
+  destruct (validate_static c mac ip host s) as [h|] eqn:Ev; cbn; auto.
+  destruct (rm_lease c _ _ _ s) as [s1|] eqn:Er; cbn; auto.
+  pose proof (rm_lease_inv _ _ _ _ _ _ I Er) as I1.
+  destruct (add_lease c _ s1) as [s2|] eqn:Ea; cbn; auto.
+  apply store_inv.
+  apply find_index_some in Ef as [Efi Efm]. cbn in Efm. apply N.eqb_eq in Efm.
+  apply validate_static_some in Ev as (Hgw & _ & Hip).
+  apply rm_lease_some in Er as [[_ E0]|(l1 & l & l2 & EL & Elm & _ & _ & EL1)].
+  { rewrite E0 in Efi. destruct fi; discriminate. }
+  assert (Nm : ~ In mac (macs (l1 ++ l2))).
+  { pose proof I as [[_ B _ _] _ _]. rewrite EL, macs_app in B. cbn in B.
+    apply NoDup_remove_2 in B. rewrite macs_app, <- Efm, <- Elm. exact B. }
+  eapply add_lease_inv; eauto; cbn; rewrite ?EL1; auto.
+  destruct Hip as [Hip|(d & Hd & Hdi & Hdm)].
+  - intros Hin. destruct I as [_ [A _] _].
+    assert (iidx (ix s) ip = true); [|congruence].
+    apply A. rewrite EL. eapply Thin_in_ip; [apply Thin_remove|exact Hin].
+  - rewrite EL in Hd. apply in_app_iff in Hd as [Hd|[<-|Hd]].
+    + exfalso. apply Nm. rewrite macs_app, in_app_iff. left. rewrite <- Hdm. apply in_map; auto.
+    + destruct I as [[A _ _ _] _ _]. rewrite EL, ips_app in A. cbn in A.
+      apply NoDup_remove_2 in A. rewrite ips_app, <- Hdi. exact A.
+    + exfalso. apply Nm. rewrite macs_app, in_app_iff. right. rewrite <- Hdm. apply in_map; auto.
+Qed.
+
+Lemma static_remove_inv c mac ip host s : Inv c s -> Inv c (fst (static_remove c mac ip host s)).
+Proof.
+  intros I. unfold static_remove. destruct (rm_lease c ip mac host s) as [s1|] eqn:Er; cbn; auto.
+  apply store_inv. eapply rm_lease_inv; eauto.
+Qed.
+
+Lemma restart_inv c s : Inv c s -> Inv c (restart c s).
+Proof. intros [_ _ K]. apply load_inv; auto. Qed.
+
+Theorem step_inv c s now o : Inv c s -> Inv c (fst (step c s now o)).
+Proof.
+  intros I. destruct o; cbn [step].
+  - apply discover_inv; auto.
+  - apply request_inv; auto.
+  - apply decline_inv; auto.
+  - apply release_inv; auto.
+  - apply static_add_inv; auto.
+  - apply static_update_inv; auto.
+  - apply static_remove_inv; auto.
+  - exact I.
+  - apply restart_inv; auto.
+Qed.
+
+Theorem run_inv c h : forall s, Inv c s -> Inv c (run c h s).
+Proof.
+  unfold run. induction h as [|[now o] h IH]; intros s I; cbn; auto.
+  apply IH. apply step_inv; auto.
+Qed.
+
+Lemma empty_state_inv c : Inv c empty_state.
+Proof. apply empty_inv. split; cbn; try constructor; tauto. Qed.
+
+(** Every state reachable from the empty table by any history, for any
+    configuration and any clock readings. *)
+Theorem inv_reachable c h : Inv c (run c h empty_state).
+Proof. apply run_inv, empty_state_inv. Qed.
